@@ -91,6 +91,12 @@ def candidates(seed, around=None):
              "// splicer begin", "// splicer end", "splicer begin a", "! splicer begin c  extra", "! splicer end c",
              "\tcode\t", "// splicer begin b", "// splicer end b",
              "    // splicer begin a", "    // splicer end a", "#ifdef X", "  y;"]
+    # the marker is recognised by its words, whatever comment leader the user's language (or taste) puts before it
+    for lead, trail in (("/* ", " */"), ("/// ", ""), ("!! ", ""), ("C ", ""), ("* ", ""), ("# ", ""), ("-- ", ""), ("  /*", "*/"),
+                        ("!$ ", ""), ("//! ", ""), ("c     ", "")):
+        yield {"lines": [lead + "splicer begin a.b" + trail, "  kept line  ", lead + "splicer end a.b" + trail]}
+        yield {"lines": ["outside", lead + "splicer begin c" + trail, "one", "two", lead + "splicer end c" + trail,
+                         "// splicer begin d", "three", "// splicer end d"]}
     # whole blocks in every order: nested tags followed by file-level tags, deeper after shallower, siblings
     tags = ["a.b", "c", "a.c", "d.e.f", "g", "d.e.h"]
     for n in (2, 3):
